@@ -147,8 +147,9 @@ def proof_status(prop_id):
     src = strip_comments(open(pf).read())
     names = re.findall(r"\bTheorem\s+(\w+)", src)
     res["obligations"] = len(names)
-    # lint: statements only
-    for sentence in re.split(r"(?<=\.)\s+", src):
+    # lint: statements only (Examples = non-vacuity witnesses with their own short proofs are allowed)
+    src_lint = re.sub(r"\bExample\b.*?\bQed\.", "", src, flags=re.S)
+    for sentence in re.split(r"(?<=\.)\s+", src_lint):
         s = sentence.strip()
         if not s:
             continue
